@@ -77,14 +77,35 @@ class AsyncPeer(_Core):
         self.frag: int | None = None  # fragment size for outgoing ciphertext
 
     async def _flush(self) -> None:
+        """hand pending ciphertext to an ordered background flusher (never blocks: a bounded pipe must not be able to
+        stall the peer's reader through the writer)"""
+        import asyncio
+
         data = self.outbio.read()
         if data:
             self.bytes_out += len(data)
-            if self.frag:
-                for i in range(0, len(data), self.frag):
-                    await self.t.send_all(data[i : i + self.frag])
-            else:
-                await self.t.send_all(data)
+            if getattr(self, "_outq", None) is None:
+                self._outq = asyncio.Queue()
+                self._flusher = asyncio.ensure_future(self._flusher_task())
+            self._outq.put_nowait(data)
+
+    async def _flusher_task(self) -> None:
+        while True:
+            data = await self._outq.get()
+            try:
+                if self.frag:
+                    for i in range(0, len(data), self.frag):
+                        await self.t.send_all(data[i : i + self.frag])
+                else:
+                    await self.t.send_all(data)
+            except OSError:
+                pass
+            finally:
+                self._outq.task_done()
+
+    async def drain(self) -> None:
+        if getattr(self, "_outq", None) is not None:
+            await self._outq.join()
 
     async def _pump(self, fn, *args):
         buf = bytearray(65536)
@@ -149,6 +170,7 @@ class AsyncPeer(_Core):
         except ssl.SSLError:
             pass
         await self._flush()
+        await self.drain()
         self.sent_marks["close_notify"] = self.bytes_out
 
 
@@ -251,6 +273,19 @@ class PumpedPeer(_Core):
                     self.steps.pop(0)
                     self.outbio_mark("close_notify")
                     progressed = True
+                elif st[0] == "read_n":
+                    if len(self.plaintext_in) >= st[1]:
+                        self.steps.pop(0)
+                        progressed = True
+                    else:
+                        d = self.obj.read(65536)
+                        if d:
+                            self.plaintext_in += d
+                            progressed = True
+                        else:
+                            self.got_close_notify = True
+                            self.steps.pop(0)
+                            progressed = True
                 elif st[0] == "read":
                     try:
                         d = self.obj.read(65536)
